@@ -146,6 +146,9 @@ example : StableHost (lit "[2001:db8::8:800:200c:417a]") := Or.inr (Or.inr (by d
 example : (Url.parseUrl (lit "http://[2001:DB8::8:800:200C:417A]:8080/")).toOption.map (·.host) =
     some (some (lit "[2001:db8::8:800:200c:417a]")) := by decide +kernel
 
+example : (send1 none "http://[2001:DB8::8:800:200C:417A]:8080/").toOption.map (fun r => (r.dialHost, r.dialPort)) =
+    some (lit "2001:db8::8:800:200c:417a", 8080) := by decide +kernel
+
 /-- **Host header (direct).**  Exactly one `Host` line; it is computed from the same pool host `D`
 (the re-normalised URL host without its brackets) and the same port as the connect target: the socket
 goes to `dialName D`, `r.dialPort`; `Host` is `D` without trailing dots — for a name containing `:`
@@ -558,6 +561,38 @@ theorem C15_host_header_forward (idna : Str → Option Str) (extra : PoolKey.Ctx
 
 example : (send1 (some pxHttp) "http://Example.com:8080/a").toOption.map (·.hostHeader) =
     some [lit "example.com:8080"] := by decide +kernel
+
+/-- The general form of `host-header:forward:redirect-stale-host` (a theorem about the defect, not a
+claim of the property): whatever URL the follow-up of a redirect goes to, when it is forwarded with
+the headers the first hop left in `kw["headers"]` (`Accept`, `Host: n₀`), its `Host` header is the
+FIRST hop's `n₀` — while the target is the new URL. -/
+theorem C15_redirect_stale_host_forward (idna : Str → Option Str) (extra : PoolKey.Ctx) (p : ProxyCfg)
+    (u : Url.Url) (r : Route) (n₀ : Str) (hsc : u.scheme = some http ∨ u.scheme = some https)
+    (hf : isForwarding (some p) u.scheme = true) (hsk : n₀ ≠ Gen.skipHeader)
+    (h : routeWith idna (some p) extra u [acceptHdr, (lit "Host", n₀)] = .ok r) :
+    r.target = u.render ∧ r.hostHeader = [n₀] := by
+  have hn : ∃ n, u.netloc = some n ∧ n ≠ [] := by
+    unfold routeWith route at h
+    have hsc' : (u.scheme = some http || u.scheme = some https) = true := by
+      rcases hsc with e | e <;> simp [e]
+    simp only [Mgr.init, Option.isSome_some, Bool.true_and, hsc', Bool.not_true, Bool.false_eq_true, if_false] at h
+    split at h
+    · simp at h
+    · split at h
+      · simp at h
+      · rename_i hsend
+        obtain ⟨n, _, _, _, hn', hne', _⟩ := send_forward_ok hf hsend
+        exact ⟨n, hn', hne'⟩
+  obtain ⟨n, hn1, hn2⟩ := hn
+  obtain ⟨_, _, _, _, _, _, _, _, _, _, _, _, _, htg, hhh, _⟩ :=
+    route_forward_carried hsc hf (proxyHeaders_carried hn1 hn2) h
+  exact ⟨htg, by rw [hhh]; simp [hsk]⟩
+
+-- non-vacuity: a follow-up to "http://b.example/next" carrying the first hop's headers
+example : (routeWith (fun _ => none) (some pxHttp) []
+      ⟨some http, none, some (lit "b.example"), none, some (lit "/next"), none, none⟩
+      [acceptHdr, (lit "Host", lit "a.example")]).toOption.map (fun r => (r.target, r.hostHeader)) =
+    some (lit "http://b.example/next", [lit "a.example"]) := by decide +kernel
 
 /-- known findings `host-header:forward:redirect-stale-host` and
 `host-header:tunnel:redirect-stale-host`: the follow-up request of a redirect carries the first hop's
